@@ -21,9 +21,13 @@ struct S {
     subset: [bool; 4],
     path: Path,
     mailbox: Mailbox,
-    with_restart: bool,
+    /// number of self-restarts (Context::restart from a handler), one after the other
+    with_restart: u8,
     /// a backlog of non-waiting traffic is queued (behind a slow message) before the probes
     burst: bool,
+    /// timer deadlines may fire while tasks are runnable (thorough tier): ticks are then handled
+    /// no earlier than due, but not necessarily at the exact instant
+    time_races: bool,
 }
 
 const M_UPWS: u32 = 11;
@@ -131,7 +135,7 @@ impl Scene for S {
             self.submit(M_UPWA),
             self.submit(M_UPWC),
         ]);
-        if self.with_restart {
+        for _ in 0..self.with_restart {
             ops.push(self.submit(M_RESTART));
             ops.push(Op::Sleep(5));
             ops.push(self.submit(M_AFTER));
@@ -183,34 +187,68 @@ impl Scene for S {
         // delayed_send(5) exactly once
         crate::check::oblige("timers-keep-firing");
         let ticks1: Vec<u64> = an.enters.iter().filter(|e| matches!(e.cb, Cb::Tick { timer: 1, reg_inc: 0 })).map(|e| e.time).collect();
-        if !(ticks1.contains(&2) && ticks1.contains(&4)) {
-            out.push(Violation {
-                clause: "timers-keep-firing",
-                key: format!("C15/only-strong={sub}/interval"),
-                detail: format!("interval(period 2) ticks were handled at {ticks1:?}; expected at t=2 and t=4"),
-            });
-        }
         let d: Vec<u64> = an.enters.iter().filter(|e| matches!(e.cb, Cb::Tick { timer: 2, reg_inc: 0 })).map(|e| e.time).collect();
-        if d != vec![3] {
-            out.push(Violation {
-                clause: "timers-keep-firing",
-                key: format!("C15/only-strong={sub}/delayed_send"),
-                detail: format!("delayed_send(3) was handled at {d:?}; expected exactly once at t=3"),
-            });
+        if self.time_races {
+            // one-sided: the timers fired (the interval at least twice, the one-shot exactly
+            // once), none before it was due
+            if ticks1.len() < 2 || ticks1.iter().enumerate().any(|(k, t)| *t < 2 * (k as u64 + 1)) {
+                out.push(Violation {
+                    clause: "timers-keep-firing",
+                    key: format!("C15/only-strong={sub}/interval"),
+                    detail: format!("interval(period 2) ticks were handled at {ticks1:?}; expected at least two, the k-th not before t=2k"),
+                });
+            }
+            if d.len() != 1 || d[0] < 3 {
+                out.push(Violation {
+                    clause: "timers-keep-firing",
+                    key: format!("C15/only-strong={sub}/delayed_send"),
+                    detail: format!("delayed_send(3) was handled at {d:?}; expected exactly once, not before t=3"),
+                });
+            }
+        } else {
+            if !(ticks1.contains(&2) && ticks1.contains(&4)) {
+                out.push(Violation {
+                    clause: "timers-keep-firing",
+                    key: format!("C15/only-strong={sub}/interval"),
+                    detail: format!("interval(period 2) ticks were handled at {ticks1:?}; expected at t=2 and t=4"),
+                });
+            }
+            if d != vec![3] {
+                out.push(Violation {
+                    clause: "timers-keep-firing",
+                    key: format!("C15/only-strong={sub}/delayed_send"),
+                    detail: format!("delayed_send(3) was handled at {d:?}; expected exactly once at t=3"),
+                });
+            }
         }
-        if self.with_restart {
-            let t1: Vec<u64> = an.enters.iter().filter(|e| matches!(e.cb, Cb::Tick { timer: 1, reg_inc: 1 })).map(|e| e.time).collect();
+        for r in 1..=self.with_restart as u16 {
+            let t1: Vec<u64> = an.enters.iter().filter(|e| matches!(e.cb, Cb::Tick { timer: 1, reg_inc } if reg_inc == r)).map(|e| e.time).collect();
             if t1.len() < 2 {
                 out.push(Violation {
                     clause: "timers-keep-firing",
                     key: format!("C15/only-strong={sub}/interval-after-restart"),
-                    detail: format!("after the self-restart the interval ticked at {t1:?}; expected two ticks within 5 ticks"),
+                    detail: format!("after self-restart #{r} the interval ticked at {t1:?}; expected two ticks within 5 ticks"),
                 });
             }
         }
-        // every probe message was handled by the original instance; the self-stop terminated it
+        // a self-restart that reported success takes effect: one more incarnation starts
+        let accepted = t.log.iter().filter(|e| matches!(e.ev, Ev::Ctx { op: CtxOp::Restart, ok: true, .. })).count();
+        let starts = an.enters.iter().filter(|e| e.a == 0 && e.cb == Cb::Started).count();
+        if accepted > 0 {
+            crate::check::oblige("restart-takes-effect");
+        }
+        if an.task_end(0).is_some() && starts != 1 + accepted {
+            out.push(Violation {
+                clause: "restart-takes-effect",
+                key: format!("C15/only-strong={sub}/restart-without-effect"),
+                detail: format!("{accepted} self-restart(s) reported success but started() ran {starts} time(s)"),
+            });
+        }
+        // every probe message was handled by the original instance (under the recreate strategy:
+        // the first incarnation was); the self-stop terminated it
+        let recreate = crate::scenes::ambient().recreate;
         for e in &an.enters {
-            if e.a == 0 && e.inst != 0 {
+            if e.a == 0 && e.inst != 0 && !(recreate && e.inc > 0) {
                 out.push(Violation {
                     clause: "identity-preserved",
                     key: format!("C15/only-strong={sub}/identity"),
@@ -238,28 +276,40 @@ impl Scene for S {
     }
 }
 
-fn cases(tier: Tier) -> Vec<Case> {
+fn base_cases(tier: Tier) -> Vec<Case> {
     let mut v = vec![];
     let mbs: &[Mailbox] = if tier == Tier::Quick { &[Mailbox::U, Mailbox::B(1)] } else { &[Mailbox::U, Mailbox::B(0), Mailbox::B(1), Mailbox::B(2)] };
     for mask in 1u8..16 {
         let subset = [mask & 1 != 0, mask & 2 != 0, mask & 4 != 0, mask & 8 != 0];
         for path in [Path::Direct, Path::ViaWeakUpgrade, Path::CloneOfKind] {
             for &mailbox in mbs {
-                for (with_restart, burst) in [(false, false), (true, false), (false, true)] {
+                for (with_restart, burst) in [(0u8, false), (1, false), (2, false), (0, true)] {
                     if burst && path != Path::Direct {
+                        continue;
+                    }
+                    // two restarts in a row: one strong kind at a time, direct handles (thorough: all)
+                    if with_restart == 2 && tier == Tier::Quick && (path != Path::Direct || mask.count_ones() != 1) {
                         continue;
                     }
                     v.push(Case {
                         desc: format!("strong-kinds subset={} path={:?} mailbox={} restart={} burst={}", subset_name(&subset), path, mailbox.name(), with_restart, burst),
                         exec: ExecCfg { horizon: 30, max_early_fires: if tier == Tier::Thorough { 1 } else { 0 }, ..ExecCfg::default() },
                         bound: None,
-                        scene: Box::new(S { subset, path, mailbox, with_restart, burst }),
+                        scene: Box::new(S { subset, path, mailbox, with_restart, burst, time_races: tier == Tier::Thorough }),
                     });
                 }
             }
         }
     }
     v
+}
+
+fn cases(tier: Tier) -> Vec<Case> {
+    // the same scenes under neutral re-configurations: a handler timeout nobody comes near and a
+    // bounded mailbox that never fills, recreate-from-default, and (without restarts, which a
+    // stream-attached actor cannot express) the stream loop
+    let no_restart = |d: &str| d.contains("restart=0");
+    crate::check::widen(&|| base_cases(tier), &|_| true, &|_| true, Some(&no_restart))
 }
 
 pub fn property() -> Property {
